@@ -52,7 +52,7 @@ def parse_output(name, text, res):
     # restrict to the section of this harness
     m = re.search(r'Checking harness ' + re.escape(name) + r'\.\.\.', text)
     sec = text[m.start():] if m else text
-    for cm in re.finditer(r'Check \d+: (\S+)\n\s+- Status: (\w+)\n\s+- Description: "(.*)"\n(?:\s+- Location: (.*)\n)?', sec):
+    for cm in re.finditer(r'Check \d+: (.+)\n\s+- Status: (\w+)\n\s+- Description: "(.*)"\n(?:\s+- Location: (.*)\n)?', sec):
         cname, status, desc, loc = cm.groups()
         if '.cover.' in cname or cname.startswith('cover'):
             res.covers.append((desc, status))
@@ -141,7 +141,7 @@ def run_one(name, slot, timeout_s, mem_gb, extra_args=(), rustflags_cfg=()):
     return res
 
 
-def run_harnesses(names, jobs=6, timeout_s=600, mem_gb=20, log_dir=None, extra_args=(), on_result=None):
+def run_harnesses(names, jobs=6, timeout_s=600, mem_gb=20, log_dir=None, extra_args=(), on_result=None, per_harness_args=None):
     """run all harnesses, `jobs` at a time. Returns {name: HarnessResult}."""
     q = queue.Queue()
     for n in names:
@@ -156,7 +156,7 @@ def run_harnesses(names, jobs=6, timeout_s=600, mem_gb=20, log_dir=None, extra_a
                 n = q.get_nowait()
             except queue.Empty:
                 return
-            r = run_one(n, slot, timeout_s, mem_gb, extra_args)
+            r = run_one(n, slot, timeout_s, mem_gb, list(extra_args) + list((per_harness_args or {}).get(n, [])))
             if log_dir:
                 os.makedirs(log_dir, exist_ok=True)
                 with open(os.path.join(log_dir, n.replace('::', '__') + '.log'), 'w') as f:
@@ -168,7 +168,8 @@ def run_harnesses(names, jobs=6, timeout_s=600, mem_gb=20, log_dir=None, extra_a
 
     # slot 0 first compiles alone (so that a compile error is reported once and
     # quickly); the other slots start from a copy of its target directory.
-    ths = [threading.Thread(target=worker, args=(i,)) for i in range(jobs)]
+    base = int(os.environ.get('VERIF_SLOT_BASE', '0'))
+    ths = [threading.Thread(target=worker, args=(base + i,)) for i in range(jobs)]
     for t in ths:
         t.start()
     for t in ths:
@@ -176,11 +177,11 @@ def run_harnesses(names, jobs=6, timeout_s=600, mem_gb=20, log_dir=None, extra_a
     return results
 
 
-def playback(name, slot=0, timeout_s=900):
+def playback(name, slot=0, timeout_s=900, extra_args=()):
     """Concrete playback of a failing harness: returns (test_source or None, log)."""
     tdir = os.path.join(BUILD, 'kani-slot%d' % slot)
     cmd = ['cargo', 'kani', '--target-dir', tdir, '--harness', name, '--exact',
-           '-Z', 'concrete-playback', '--concrete-playback=print', '--output-format', 'regular']
+           '-Z', 'concrete-playback', '--concrete-playback=print', '--output-format', 'regular'] + list(extra_args)
     env = dict(os.environ, CARGO_NET_OFFLINE='true')
     env.pop('RUSTUP_TOOLCHAIN', None)
     try:
